@@ -12,6 +12,12 @@ Decided by: Barril/Props/C08.lean over the model Barril/Model/Cmp.lean:
     objects before they are compared (hashing, + - * /, comparisons, conversions, copies, pickling).  Theorems
     `stir_keeps_pool`, `stir_invisible_eq/_hash`, `stirred_*`: the verdicts of `==`, `!=`, `hash` after ANY history
     are those of the descriptors the objects were created with.
+  * `OSession` = a pool of ordered operands (Scalars / FractionScalars), `OStirOp` = what is done with them before an
+    order operator is asked (float(), str/repr/GetFormatted, GetValue(unit), comparisons in either operand order, ==,
+    hash, arithmetic, copies that join the pool).  Theorems `stir_invisible_order`, `stirred_order_of_descriptors`,
+    `stirred_copy_orders_as_original`, `stirred_scalar_order_iff_base`, `stirred_scalar_coherent`,
+    `stirred_fscalar_order_iff_base_partial`, `stirred_order_cross_type_error`: the verdict of every order operator
+    after ANY history is the verdict on fresh objects, a function of the two descriptors only.
 Tie: (a) order of Scalars and FractionScalars on unit pairs of seeded quantity types, (b) `==`, `!=`,
 `hash` on ALL ordered pairs of a pool of objects of every class, (c) Fraction order against numbers/builtins and
 the decimal-shifting loop of `Fraction(number)`, (d) the stir: a second pool (derived quantities holding one
@@ -53,7 +59,14 @@ RULE = ("(a0) cross-type order: every ordered pair of operands {Scalar, Fraction
         "None, str, FractionValue, Fraction; history: hash + dict key of every object, then all ordered pairs of a type's "
         "objects (and numbers) under + - * /, seeded cross-type pairs, ==/!=/</>=, GetValue/ConvertScalarValue/"
         "CreateCopy(unit), str/repr, every recipe built again, pickle round trip, deepcopy/CreateCopy, kept results; "
-        "then ==, !=, hash on ALL ordered pairs of the grown pool; (e) AbstractValueWithQuantityObject.__hash__(o) for "
+        "then ==, !=, hash on ALL ordered pairs of the grown pool; (d2) order after histories: per plan one quantity type "
+        "('length' several times, temperature, pressure, seeded others), up to 4 of its units within a factor 1e4, six "
+        "Scalars/FractionScalars (non-zero fraction parts, amounts >= 2 % apart, cross-unit), an identically built twin, "
+        "one operand of another quantity type; a random history of float()/GetAbstractValue/copy of the value, str/repr/"
+        "GetFormatted, GetValue(unit)/CreateCopy(unit), <,<=,>,>= in either operand order, ==/!=/AlmostEqual, hash, "
+        "+ - * /, and copies (copy, deepcopy, CreateCopy, pickle for Scalars) that join the pool; every comparison of "
+        "the history and then <,<=,>,>= on ALL ordered pairs of the grown pool (asked one after the other, so every pair "
+        "also after its mirror image) are compared with the model's verdicts on the recipes' descriptors; (e) AbstractValueWithQuantityObject.__hash__(o) for "
         "every pooled object.  distinct = distinct model line; non-trivial = two different objects at least "
         "one of which is a barril object / two different units with a successful comparison")
 EXHAUSTIVE = {"quick": False, "thorough": False}
@@ -66,6 +79,11 @@ ASSUMPTIONS = [
     "FractionScalar order theorems assume the converted numerator passes that loop unchanged (FSc.NumeratorKept); "
     "without it the code itself is incoherent (theorem fscalar_order_counterexample)",
     "int and float are one model class `num` (their mixed comparisons are exact in CPython)",
+    "order after histories: the descriptor of a pooled operand is its recipe (checked against the real object after "
+    "the history and after the comparisons; a copy: against its original's); that reads, shows, conversions, "
+    "comparisons and copies leave nothing behind that an order operator reads is the model's statement (OSession.step), "
+    "tied to the code by the correspondence only; verdicts on amounts within K*eps*M of each other are not compared "
+    "(identically built operands are: their tie is exact)",
     "stir: object identities (id(o), id(o._quantity)) are observed on the real objects and given to the model; the "
     "descriptor of a pooled object is read from the real object when it is created (before the history); that + - * /, "
     "conversions, copies and pickling leave the operands' descriptors alone is the model's statement (StirOp, "
@@ -822,6 +840,531 @@ def _shrink_stir(case, failure, ctx):
     return (out, f) if out is not None else (case, failure)
 
 
+# ---------------------------------------------------------------------------------------------- order after histories
+# The order operators are rarely asked of fresh objects either.  An *order plan* (JSON-able, self-contained) holds
+# recipes of Scalars and FractionScalars of one quantity type in several table units (fraction parts non-zero,
+# physical amounts apart, one identically built twin, one operand of another quantity type) and a random history:
+# float() / str() / repr() / GetFormatted / GetValue(unit) / CreateCopy(unit) of an operand, comparisons in either
+# operand order, ==, hash, arithmetic, and copies (copy.copy, deepcopy, CreateCopy(), pickle) that join the pool.
+# Then <, <=, >, >= are asked on ALL ordered pairs of the grown pool, one after the other (so every pair is also
+# asked after the mirrored pair).  The model answers every comparison - those of the history too - from the
+# descriptors of the recipes (theorems stir_invisible_order, stirred_order_of_descriptors,
+# stirred_copy_orders_as_original): any trace an operation leaves in an operand is a disagreement.
+OCOPY = ("copy", "deepcopy", "createcopy", "pickle")
+OPCODE = {"lt": 0, "le": 1, "gt": 2, "ge": 3}
+OFRACS = ((1, 2), (3, 4), (5, 8), (1, 3), (7, 16), (2, 3), (1, 4), (3, 8))
+OTOL = qstr(K * F(EPS))
+
+
+def _oside(o):
+    """the model's term of an operand recipe"""
+    d = dict(cls=o["cls"], q=dict(k="empty") if o["k"] == "empty" else
+             dict(k="simple", cat=str(sym(o["cat"])), unit=str(sym(o["unit"]))))
+    if o["cls"] == "scalar":
+        d["value"] = qstr(exact(o["v"]))
+    else:
+        n, num, den = o["v"]
+        fr = F(num, den)
+        d.update(number=qstr(exact(n)), frac="%d/%d" % (fr.numerator, fr.denominator))
+    return d
+
+
+def _odesc(x):
+    """the same term read from a real Scalar / FractionScalar (with a simple quantity)"""
+    q = x._quantity
+    d = dict(cls="scalar" if type(x).__name__ == "Scalar" else "fscalar",
+             q=dict(k="simple", cat=str(sym(q.GetCategory())), unit=str(sym(q.GetUnit()))))
+    if d["cls"] == "scalar":
+        d["value"] = qstr(exact(x._value))
+    else:
+        d.update(number=qstr(exact(x._value._number)), frac=_enc_frac(x._value._fraction))
+    return d
+
+
+def _ounits(ctx, rng, qt, n):
+    """units of the quantity type within a factor 1e4 of the first chosen one (so that a converted numerator is far
+    from SMALL, the input class of the known finding CLASS_FLUSH)"""
+    db = ctx.db
+    units = [i.unit for i in db.quantity_types[qt]]
+    if qt == "length":
+        first = [u for u in ("in", "cm", "ft", "m") if u in units]
+        rest = [u for u in units if u not in first]
+        rng.shuffle(rest)
+        units = first + rest
+    else:
+        rng.shuffle(units)
+    out = []
+    for u in units:
+        try:
+            f = abs(db.Convert(qt, u, units[0], 1.0) - db.Convert(qt, u, units[0], 0.0))
+        except Exception:
+            continue
+        if math.isfinite(f) and 1e-4 <= f <= 1e4:
+            out.append(u)
+        if len(out) == n:
+            break
+    return out
+
+
+def _onumerator_kept(ctx, o, units):
+    """the numerator of the FractionScalar recipe, converted to every unit of the plan, passes Fraction(number)
+    within 1e-9 (the oracle's tolerance is 1e-7)"""
+    from barril.basic.fraction import Fraction
+    from barril.units import ObtainQuantity
+
+    num = F(o["v"][1], o["v"][2]).numerator
+    try:
+        with _Use(ctx.db):
+            q = ObtainQuantity(o["unit"], o["cat"])
+            for u in units:
+                if u == o["unit"]:
+                    continue
+                x = q.ConvertScalarValue(num, u) - q.ConvertScalarValue(0.0, u)
+                y = float(Fraction(x)) if isinstance(x, float) else float(x)
+                if not abs(y - x) <= 1e-9 * abs(x) or x == 0:
+                    return False
+    except Exception:
+        return False
+    return True
+
+
+def make_oplan(ctx, rng, qt, n_steps):
+    """an order plan on the quantity type `qt`; None if the type has no two usable units"""
+    db = ctx.db
+    units = _ounits(ctx, rng, qt, 4)
+    if len(units) < 2:
+        return None
+    u0 = units[0]
+    x0 = round(rng.uniform(2.0, 60.0), 2)
+    classes = ["fscalar", "fscalar", "fscalar", "scalar", "scalar", "fscalar"]
+    rng.shuffle(classes)
+    operands = []
+    for k, cls in enumerate(classes):
+        u = units[k % len(units)]
+        cat = _cat_for(ctx, rng, qt, u)
+        if cat is None:
+            continue
+        amount = x0 * (1.0 + 0.07 * (k - 2.5) * rng.choice((1.0, 1.3)))  # in u0; apart by >= 2 % of x0
+        try:
+            val = float(db.Convert(qt, u0, u, amount))
+        except Exception:
+            continue
+        if not math.isfinite(val):
+            continue
+        val = float("%.6g" % val)
+        o = dict(k="simple", unit=u, cat=cat, caption=None, cls=cls, v=val)
+        if cls == "fscalar":
+            o = None
+            for num, den in rng.sample(OFRACS, len(OFRACS)):
+                cand = dict(k="simple", unit=u, cat=cat, caption=None, cls=cls, v=[val - num / den, num, den])
+                if _onumerator_kept(ctx, cand, units):
+                    o = cand
+                    break
+            if o is None:
+                o = dict(k="simple", unit=u, cat=cat, caption=None, cls="scalar", v=val)
+        operands.append(o)
+    if len(operands) < 3:
+        return None
+    operands.append(dict(operands[rng.randrange(len(operands))]))  # an identically built twin: exact ties
+    ou, oc = ("s", "time") if qt != "time" else ("m", "length")
+    operands.append(dict(k="simple", unit=ou, cat=oc, caption=None, cls=rng.choice(("scalar", "fscalar")), v=1.5))
+    if operands[-1]["cls"] == "fscalar":
+        operands[-1]["v"] = [1.0, 1, 2]
+    steps, n = [], len(operands)
+    cls_of = [o["cls"] for o in operands]
+    kinds = ["float"] * 3 + ["show"] * 2 + ["getvalue"] * 3 + ["order"] * 5 + ["eq", "hash", "arith"] + ["copy"] * 3
+    copies = 0
+    for _ in range(n_steps):
+        k = rng.choice(kinds)
+        a, b = rng.randrange(n), rng.randrange(n)
+        if k == "copy" and copies >= 5:
+            k = "float"
+        if k in ("float", "show", "hash"):
+            steps.append(dict(k=k, a=a))
+        elif k == "getvalue":
+            steps.append(dict(k=k, a=a, x=rng.choice(units)))
+        elif k == "order":
+            steps.append(dict(k=k, a=a, b=b, op=rng.choice(OPS)))
+            if rng.random() < 0.4:
+                steps.append(dict(k=k, a=b, b=a, op=rng.choice(OPS)))
+        elif k in ("eq", "arith"):
+            steps.append(dict(k=k, a=a, b=b))
+        else:
+            # (a FractionScalar cannot be pickled: its Quantity holds the local function `identity`)
+            steps.append(dict(k="copy", a=a, how=rng.choice(OCOPY if cls_of[a] == "scalar" else OCOPY[:3])))
+            cls_of.append(cls_of[a])
+            copies += 1
+            n += 1
+    return dict(qtype=qt, units=units, operands=operands, steps=steps)
+
+
+def _ostir_case(ctx, plan, queries=None):
+    n = len(plan["operands"]) + sum(1 for st in plan["steps"] if st["k"] == "copy")
+    if queries is None:
+        queries = [[i, j] for i in range(n) for j in range(n)]
+    script = []
+    for st in plan["steps"]:
+        k = st["k"]
+        if k in ("float", "show", "hash", "copy"):
+            script.append([{"float": 0, "show": 1, "hash": 5, "copy": 7}[k], st["a"]])
+        elif k == "getvalue":
+            script.append([2, st["a"], str(sym(st["x"]))])
+        elif k == "order":
+            script.append([3, OPCODE[st["op"]], st["a"], st["b"]])
+        else:
+            script.append([{"eq": 4, "arith": 6}[k], st["a"], st["b"]])
+    return dict(op="ostir", db="posc", small=ctx.small, tol=OTOL, pool=[_oside(o) for o in plan["operands"]],
+                script=script, queries=queries, _t=dict(plan=plan, queries=queries))
+
+
+def _ostir_cases(ctx, salt, n_length, n_types, n_steps):
+    db = ctx.db
+    rng = ctx.fresh_rng("C08ostir" + salt)
+    qts = sorted(q for q in db.quantity_types if len(db.quantity_types[q]) > 1 and q != "length")
+    forced = [q for q in ("temperature", "pressure") if q in qts]
+    rest = [q for q in qts if q not in forced]
+    rng.shuffle(rest)
+    made = 0
+    for qt in ["length"] * n_length + forced + rest:
+        if made >= n_length + n_types:
+            break
+        plan = make_oplan(ctx, rng, qt, n_steps)
+        if plan is not None:
+            made += 1
+            yield _ostir_case(ctx, plan)
+
+
+def _oshow_operand(plan, i):
+    ops, prod = plan["operands"], [st for st in plan["steps"] if st["k"] == "copy"]
+    if i < len(ops):
+        return "p%d = %s" % (i, _xshow(ops[i]))
+    st = prod[i - len(ops)]
+    how = {"copy": "copy.copy(p%d)", "deepcopy": "copy.deepcopy(p%d)", "createcopy": "p%d.CreateCopy()",
+           "pickle": "pickle.loads(pickle.dumps(p%d))"}[st["how"]] % st["a"]
+    return "p%d = %s" % (i, how)
+
+
+def _oshow_step(st):
+    k, a = st["k"], st["a"]
+    if k == "float":
+        return "float(p%d.GetValue()); p%d.GetAbstractValue(); float(copy.copy(p%d.GetValue()))" % (a, a, a)
+    if k == "show":
+        return "str(p%d); repr(p%d); p%d.GetFormatted()" % (a, a, a)
+    if k == "hash":
+        return "hash(p%d)" % a
+    if k == "getvalue":
+        return "float(p%d.GetValue(%r)); p%d.CreateCopy(unit=%r)" % (a, st["x"], a, st["x"])
+    if k == "order":
+        return "p%d %s p%d" % (a, {"lt": "<", "le": "<=", "gt": ">", "ge": ">="}[st["op"]], st["b"])
+    if k == "eq":
+        return "p%d == p%d; p%d != p%d; p%d.AlmostEqual(p%d, 6)" % (a, st["b"], a, st["b"], a, st["b"])
+    if k == "arith":
+        return "p%d + p%d; p%d - p%d; p%d * p%d; p%d / p%d" % ((a, st["b"]) * 4)
+    return "a copy of p%d joins the pool (%s)" % (a, st["how"])
+
+
+def _ocopy(x, how):
+    import copy
+    import pickle
+
+    if how == "copy":
+        return copy.copy(x)
+    if how == "deepcopy":
+        return copy.deepcopy(x)
+    if how == "createcopy":
+        return x.CreateCopy()
+    return pickle.loads(pickle.dumps(x))
+
+
+def _orun(plan, ctx, on_order=None):
+    """build the operands and perform the history on the REAL code (ctx.db must be the singleton).  Returns
+    (objects, origin) - origin[i] = index of the recipe the pooled object i goes back to; a copy that failed is None"""
+    objs = [_xmk(o) for o in plan["operands"]]
+    origin = list(range(len(objs)))
+    for pos, st in enumerate(plan["steps"]):
+        k = st["k"]
+        a = objs[st["a"]] if st["a"] < len(objs) else None
+        b = objs[st["b"]] if st.get("b") is not None and st["b"] < len(objs) else None
+        if k == "copy":
+            try:
+                objs.append(_ocopy(a, st["how"]))
+            except Exception:
+                objs.append(None)
+            origin.append(origin[st["a"]] if st["a"] < len(origin) else -1)
+            continue
+        if a is None or (st.get("b") is not None and b is None):
+            if k == "order" and on_order is not None:
+                on_order(pos, st, None, None, dict(err="other", exc="missing operand"))
+            continue
+        if k == "order":
+            r = _res(lambda: PYOP[st["op"]](a, b))
+            if on_order is not None:
+                on_order(pos, st, a, b, r)
+            continue
+        fs = {"float": (lambda: float(a.GetValue()), lambda: a.GetAbstractValue(), lambda: float(a.value),
+                        lambda: float(_ocopy(a.GetValue(), "copy"))),
+              "show": (lambda: str(a), lambda: repr(a), lambda: a.GetFormatted()),
+              "hash": (lambda: hash(a),),
+              "getvalue": (lambda: float(a.GetValue(st["x"])), lambda: a.CreateCopy(unit=st["x"])),
+              "eq": (lambda: a == b, lambda: a != b, lambda: a.AlmostEqual(b, 6)),
+              "arith": (lambda: a + b, lambda: a - b, lambda: a * b, lambda: a / b)}[k]
+        for f in fs:
+            try:
+                f()
+            except Exception:
+                pass
+    return objs, origin
+
+
+def _impl_ostir(c, ctx):
+    t = c["_t"]
+    plan = t["plan"]
+    hist = []
+    with _Use(ctx.db):
+        objs, origin = _orun(plan, ctx, lambda pos, st, a, b, r: hist.append(_code(r)))
+        want = [_oside(o) for o in plan["operands"]]
+        changed = []
+
+        def look(when):
+            for i, x in enumerate(objs):
+                try:
+                    now = None if x is None else _odesc(x)
+                except Exception as e:
+                    now = dict(why=repr(e)[:80])
+                if now != want[origin[i]] and (i, when) not in changed and not any(i == j for j, _w in changed):
+                    changed.append((i, when))
+
+        look("after the history")
+        codes = []
+        for i, j in t["queries"]:
+            if i >= len(objs) or j >= len(objs) or objs[i] is None or objs[j] is None:
+                codes.append("oooo")
+                continue
+            codes.append("".join(_code(_res(lambda k=k: PYOP[k](objs[i], objs[j]))) for k in OPS))
+        look("after the comparisons")
+    return dict(n=len(objs), hist="".join(hist), codes="".join(codes),
+                changed=["p%d %s" % (i, w) for i, w in changed])
+
+
+def _agree_ostir(c, io, m, ctx):
+    n = ctx.notes
+    t = c["_t"]
+    plan = t["plan"]
+    if io["n"] != m["n"]:
+        return "the pool holds %d objects on the real code, %d in the model" % (io["n"], m["n"])
+    if io["changed"]:
+        return ("pooled operands whose descriptor is not the one of their recipe (a copy: of its original): %s"
+                % (io["changed"][:6],))
+    orders = [st for st in plan["steps"] if st["k"] == "order"]
+    if len(io["hist"]) != len(orders) or len(m["hist"]) != 2 * len(orders):
+        return "answers for %d comparisons of the history expected: impl %d, model %d characters" % (
+            len(orders), len(io["hist"]), len(m["hist"]))
+    near = 0
+    for k, st in enumerate(orders):
+        r, d, nr = io["hist"][k], m["hist"][2 * k], m["hist"][2 * k + 1]
+        if nr == "1" and r in "TF" and d in "TF":
+            near += 1
+        elif r != d:
+            return "within the history, %s is %r on the real code, %r in the model" % (_oshow_step(st), r, d)
+    mod = _unrle(m["codes"])
+    real = io["codes"]
+    q = t["queries"]
+    if len(real) != 4 * len(q) or len(mod) != 5 * len(q):
+        return "answers for %d pairs expected: impl %d model %d characters" % (len(q), len(real), len(mod))
+    decided = cross = errs = 0
+    for k, (i, j) in enumerate(q):
+        r, d = real[4 * k:4 * k + 4], mod[5 * k:5 * k + 5]
+        if d[4] == "1" and all(ch in "TF" for ch in r + d[:4]):
+            near += 1
+            continue
+        if r != d[:4]:
+            return "after the history, p%d <,<=,>,>= p%d are %r on the real code, %r in the model (%s; %s)" % (
+                i, j, r, d[:4], _oshow_operand(plan, i), _oshow_operand(plan, j))
+        if d[:4] == "tttt":
+            cross += 1
+        elif all(ch in "TF" for ch in d[:4]):
+            decided += 1
+        else:
+            errs += 1
+    for key, v in (("ostir_plans", 1), ("ostir_history_steps", len(plan["steps"])), ("ostir_history_comparisons", len(orders)),
+                   ("ostir_copies_in_pool", io["n"] - len(plan["operands"])), ("ostir_pairs_decided", decided),
+                   ("ostir_pairs_cross_type_typeerror", cross), ("ostir_pairs_other_error", errs),
+                   ("ostir_near_ties_skipped", near)):
+        n[key] = n.get(key, 0) + v
+    ks = n.setdefault("ostir_history_step_kinds", {})
+    for st in plan["steps"]:
+        ks[st["k"]] = ks.get(st["k"], 0) + 1
+    qs = n.setdefault("ostir_quantity_types", [])
+    if plan["qtype"] not in qs:
+        qs.append(plan["qtype"])
+    return None
+
+
+def _oamount(ctx, o):
+    """the physical amount of an operand recipe in the base unit of its quantity type, from the recipe's numbers
+    (not from the object), its quantity type, and the magnitude of its parts"""
+    db = ctx.db
+    qt = db.GetQuantityType(o["unit"])
+    base = db.quantity_types[qt][0].unit
+    if o["cls"] == "scalar":
+        v, parts = float(o["v"]), abs(float(o["v"]))
+    else:
+        v, parts = o["v"][0] + o["v"][1] / o["v"][2], abs(o["v"][0]) + abs(o["v"][1] / o["v"][2])
+    z = db.Convert(qt, o["unit"], base, 0.0)
+    return qt, db.Convert(qt, o["unit"], base, v), abs(z) + abs(db.Convert(qt, o["unit"], base, parts) - z)
+
+
+def _ojudge(ctx, ra, rb, got, ops):
+    """the clauses of the property on the verdicts `got` (op -> result) of `a op b` for two operand recipes"""
+    qa, pa, ma = _oamount(ctx, ra)
+    qb, pb, mb = _oamount(ctx, rb)
+    if qa != qb:
+        for k in ops:
+            if not (isinstance(got[k], dict) and got[k].get("exc") == "TypeError"):
+                return dict(clause="ordering values of different quantity types raises TypeError", op=k, got=got[k])
+        return None
+    for k in ops:
+        if not isinstance(got[k], bool):
+            return dict(clause="ordering values of one quantity type must not raise", op=k, got=got[k])
+    tie = ra["unit"] == rb["unit"] and ra["cls"] == rb["cls"] and ra["v"] == rb["v"]
+    if tie or abs(pa - pb) > 1e-7 * (ma + mb) + 1e-300:
+        want = dict(lt=False, le=True, gt=False, ge=True) if tie else {k: PYOP[k](pa, pb) for k in OPS}
+        for k in ops:
+            if got[k] != want[k]:
+                return dict(clause="order agrees with the physical amounts", op=k, got=got[k], want=want[k],
+                            base_amounts=[pa, pb])
+    return None
+
+
+def _oracle_ostir(c, ctx):
+    """the order clauses of the property on the real code, for every comparison of the history and for every queried
+    pair (both operand orders) after it; amounts are computed from the recipes with the database's own Convert"""
+    t = c["_t"]
+    plan = t["plan"]
+    ops_, ncopy = plan["operands"], 0
+    origin = list(range(len(ops_)))
+    for st in plan["steps"]:
+        if st["k"] == "copy":
+            origin.append(origin[st["a"]] if st["a"] < len(origin) else 0)
+    found = []
+
+    def on_order(pos, st, a, b, r):
+        if found or a is None:
+            return
+        f = _ojudge(ctx, ops_[origin[st["a"]]], ops_[origin[st["b"]]], {st["op"]: r}, (st["op"],))
+        if f:
+            found.append(dict(f, where="step %d of the history" % pos, pair=[st["a"], st["b"]], a=repr(a), b=repr(b),
+                              upto=pos, step=pos))
+
+    with _Use(ctx.db):
+        objs, _origin = _orun(plan, ctx, on_order)
+        if not found:
+            for qi, (i, j) in enumerate(t["queries"]):
+                if i >= len(objs) or j >= len(objs):
+                    continue
+                a, b = objs[i], objs[j]
+                if a is None or b is None:
+                    found.append(dict(clause="the objects of the case could not be built or compared",
+                                      error="a copy could not be made", pair=[i, j], query=qi))
+                    break
+                ra, rb = ops_[origin[i]], ops_[origin[j]]
+                fwd = {k: _res(lambda k=k: PYOP[k](a, b)) for k in OPS}
+                f = _ojudge(ctx, ra, rb, fwd, OPS)
+                if f is None:
+                    bwd = {k: _res(lambda k=k: PYOP[k](b, a)) for k in OPS}
+                    f = _ojudge(ctx, rb, ra, bwd, OPS)
+                    if f is not None:
+                        f = dict(f, mirrored=True)
+                    elif all(isinstance(v, bool) for v in list(fwd.values()) + list(bwd.values())):
+                        if fwd["gt"] and bwd["gt"]:
+                            f = dict(clause="a>b and b>a are never both true")
+                        elif fwd["lt"] and bwd["lt"]:
+                            f = dict(clause="a<b and b<a are never both true")
+                        elif not (fwd["le"] or bwd["le"]):
+                            f = dict(clause="a<=b or b<=a always holds")
+                if f:
+                    found.append(dict(f, where="after the history and the comparisons of %d earlier pairs" % qi,
+                                      pair=[i, j], a=repr(a), b=repr(b), query=qi))
+                    break
+    if not found:
+        return None
+    f = found[0]
+    upto = f.pop("upto", len(plan["steps"]))
+    used = sorted({x for st in plan["steps"][:upto + 1] for x in (st["a"], st.get("b")) if x is not None} | set(f["pair"]))
+    f["objects"] = [_oshow_operand(plan, i) for i in used][:16]
+    steps = plan["steps"][:upto + 1]
+    f["history"] = [_oshow_step(st) for st in steps] if len(steps) <= 60 else "%d operations" % len(steps)
+    return f
+
+
+def _shrink_ostir(case, failure, ctx):
+    """the failing comparison alone after a history that still makes it fail: the queried pairs before it become
+    comparisons of the history, then non-copy steps are removed in shrinking chunks (every trial on fresh objects)"""
+    import time
+
+    t = case["_t"]
+    plan = t["plan"]
+    clause = failure.get("clause")
+    steps = list(plan["steps"])
+    if "query" in failure:
+        for i, j in t["queries"][:failure["query"]]:
+            steps += [dict(k="order", a=i, b=j, op=k) for k in OPS]
+        queries = [list(failure["pair"])]
+    else:
+        steps = steps[:failure.get("step", len(steps)) + 1]
+        queries = []
+
+    def trial(sts):
+        c = _ostir_case(ctx, dict(plan, steps=sts), [list(q) for q in queries])
+        f = _oracle_ostir(c, ctx)
+        return (c, f) if f and f.get("clause") == clause else None
+
+    best = trial(steps)
+    if best is None:
+        return case, failure
+    t0 = time.time()
+    size = max(1, len(steps) // 2)
+    while time.time() - t0 < 30:
+        k, reduced = 0, False
+        while k < len(steps) and time.time() - t0 < 30:
+            chunk = [x for x in range(k, min(k + size, len(steps))) if steps[x]["k"] != "copy"]
+            if chunk:
+                cand = [st for x, st in enumerate(steps) if x not in chunk]
+                r = trial(cand)
+                if r is not None:
+                    steps, best, reduced = cand, r, True
+                    continue
+            k += size
+        if size == 1 and not reduced:
+            break
+        size = max(1, size // 2)
+    # copies nobody refers to any more: drop them, renumbering the later pool members
+    n0, k = len(plan["operands"]), 0
+    while k < len(steps) and time.time() - t0 < 40:
+        if steps[k]["k"] != "copy":
+            k += 1
+            continue
+        p = n0 + sum(1 for st in steps[:k] if st["k"] == "copy")
+        refs = [x for st in steps[:k] + steps[k + 1:] for x in (st["a"], st.get("b"))] + [x for q in queries for x in q]
+        if p in refs:
+            k += 1
+            continue
+
+        def ren(x):
+            return x - 1 if x is not None and x > p else x
+
+        cand = [dict(st, a=ren(st["a"]), **({"b": ren(st["b"])} if "b" in st else {})) for st in steps[:k] + steps[k + 1:]]
+        old_q, queries = queries, [[ren(i), ren(j)] for i, j in queries]
+        r = trial(cand)
+        if r is not None:
+            steps, best = cand, r
+        else:
+            queries = old_q
+            k += 1
+    return best
+
+
+
 # ---------------------------------------------------------------------------------------------- setup
 def setup(ctx):
     ctx.db = translate.build_db("posc")
@@ -1095,6 +1638,7 @@ def cases(ctx):
     yield from _eq_cases(ctx, "base" if quick else "wide")
     yield from _basehash_cases(ctx, "base" if quick else "wide")
     yield from _stir_cases(ctx, STIR_PLAN[ctx.tier])
+    yield from _ostir_cases(ctx, "corr", *((4, 10, 24) if quick else (12, 60, 40)))
     yield from _frac_cases(ctx, "corr", 6 if quick else 40)
 
 
@@ -1128,6 +1672,10 @@ def show(c):
         return dict(op="stir", plan=p if isinstance(p, str) else "explicit (%d recipes, %d steps)" % (
             len(p["recipes"]), len(p["steps"])), pairs=len(t["pairs"]), first=t["pairs"][0], last=t["pairs"][-1],
             pool=len(c.get("pool", ())), history=len(c.get("script", ())))
+    if c["op"] == "ostir":
+        p = t["plan"]
+        return dict(op="ostir", quantity_type=p["qtype"], units=p["units"], operands=[_xshow(o) for o in p["operands"]][:10],
+                    history=[_oshow_step(st) for st in p["steps"]][:60], pairs=len(t["queries"]))
     return dict(op=c["op"], q=_unnum(t["q"]))
 
 
@@ -1184,6 +1732,8 @@ def impl(c, ctx):
                         own_exc=own.get("exc") if isinstance(own, dict) else None)
         if c["op"] == "stir":
             return _impl_stir(c, ctx)
+        if c["op"] == "ostir":
+            return _impl_ostir(c, ctx)
         if c["op"] == "fracord":
             from barril.basic.fraction import Fraction
 
@@ -1306,6 +1856,8 @@ def agree(c, io, mo, ctx):
         return None
     if c["op"] == "stir":
         return _agree_stir(c, io, m, ctx)
+    if c["op"] == "ostir":
+        return _agree_ostir(c, io, m, ctx)
     if c["op"] == "fracord":
         if "fo" in m:
             real, mod = qparse(io["fo"]), qparse(m["fo"])
@@ -1491,6 +2043,8 @@ def oracle(c, ctx):
             return dict(f, a=repr(a)[:120], b=repr(b)[:120]) if f else None
         if c["op"] == "stir":
             return _oracle_stir(c, ctx)
+        if c["op"] == "ostir":
+            return _oracle_ostir(c, ctx)
         if c["op"] == "basehash":
             o = ctx.pools[c["_t"]["pool"]][c["_t"]["i"]]
             with _Use(ctx.db):
@@ -1558,6 +2112,8 @@ def replay_finding(entry, ctx):
 def shrink(case, failure, ctx):
     if case.get("op") == "stir":
         return _shrink_stir(case, failure, ctx)
+    if case.get("op") == "ostir":
+        return _shrink_ostir(case, failure, ctx)
     return case, failure
 
 
@@ -1596,6 +2152,7 @@ def search(ctx):
     yield from _xorder_cases(ctx, "search", 10 if quick else 40)
     yield from _eq_cases(ctx, "wide")
     yield from _stir_cases(ctx, STIR_PLAN[ctx.tier])
+    yield from _ostir_cases(ctx, "search", *((6, 20, 30) if quick else (20, 100, 40)))
     yield from _frac_cases(ctx, "search", 10)
     late = []
     for c in _order_cases(ctx, "search", 40 if quick else 200, 3, all_types=not quick):
